@@ -3,6 +3,7 @@
 package http
 
 import (
+	"encoding/base64"
 	"strings"
 
 	"github.com/fatedier/frp/zzverif"
@@ -25,4 +26,18 @@ func VerifC16ParseBasicAuth() {
 	if len(auth) == 5 {
 		zzverif.Reach("C16.basicauth.bare-scheme-length")
 	}
+}
+
+// VerifC07BasicAuthContent: credentials are split at the first colon only (a password may contain
+// colons) and nothing of either part is dropped: what is compared with the configured password is
+// exactly what the peer presented.
+func VerifC07BasicAuthContent() {
+	user := zzverif.StringUpTo("user", 2, "ab")
+	pass := zzverif.StringUpTo("pass", 3, "p:")
+	hdr := []string{"Basic ", "basic ", "BASIC "}[zzverif.Choice("scheme", 3)] + base64.StdEncoding.EncodeToString([]byte(user+":"+pass))
+	u, p, ok := ParseBasicAuth(hdr)
+	zzverif.Assert(ok, "C07.basicauth.well-formed-credentials-parse")
+	zzverif.Assert(len(u) == len(user) && zzverif.StrEq(u, user), "C07.basicauth.user-is-what-precedes-the-first-colon")
+	zzverif.Assert(len(p) == len(pass) && zzverif.StrEq(p, pass), "C07.basicauth.password-is-everything-after-the-first-colon")
+	zzverif.Reach("C07.basicauth.done")
 }
